@@ -174,6 +174,66 @@ Proof.
   - intros Hn. rewrite (fold_absent c (a_id a) lv (count_occ_zero (a_id a) lv Hn)) in HD. exact HD.
 Qed.
 
+(** Set / SetTrue / SetFalse, any override graph: the LAST own occurrence after the last overrider decides; when there is
+    none the argument holds no command-line entry *)
+Fixpoint last_own (i : id) (os : list occ) : option occ :=
+  match os with
+  | [] => None
+  | o :: t => match last_own i t with
+              | Some o' => Some o'
+              | None => if beq (a_id (o_arg o)) i then Some o else None
+              end
+  end.
+
+Lemma last_own_none i : forall os, last_own i os = None -> Forall (fun o => beq (a_id (o_arg o)) i = false) os.
+Proof.
+  induction os as [|o t IH]; intros H; [constructor|]. cbn [last_own] in H.
+  destruct (last_own i t) as [o'|]; [discriminate|]. destruct (beq (a_id (o_arg o)) i) eqn:E; [discriminate|].
+  constructor; [exact E|exact (IH eq_refl)].
+Qed.
+
+Lemma last_own_split i : forall os o, last_own i os = Some o ->
+  exists l1 l2, os = l1 ++ o :: l2 /\ beq (a_id (o_arg o)) i = true /\ Forall (fun o' => beq (a_id (o_arg o')) i = false) l2.
+Proof.
+  induction os as [|x t IH]; intros o H; [discriminate|]. cbn [last_own] in H.
+  destruct (last_own i t) as [o'|] eqn:E.
+  - inversion H; subst o'. destruct (IH o eq_refl) as [l1 [l2 [E1 [E2 E3]]]].
+    exists (x :: l1), l2. split; [cbn [app]; f_equal; exact E1|]. auto.
+  - destruct (beq (a_id (o_arg x)) i) eqn:Eb; [|discriminate]. inversion H; subst x.
+    exists [], t. split; [reflexivity|]. split; [exact Eb|exact (last_own_none i t E)].
+Qed.
+
+Theorem gen_top_set_graph c0 bin toks os m a :
+  let c := build_self (with_bin c0 bin) in
+  gen_class c0 bin toks os -> parse_top c0 (bin :: toks) = OOk m -> In a (c_args c) ->
+  set_family a = true ->
+  match last_own (a_id a) (live c (a_id a) os) with
+  | Some o => exists e, fm_get (a_id a) (ms_args m) = Some e /\
+                m_raw e = step_self c SCmdLine a (o_vals c o) None /\ m_source e = Some SCmdLine
+  | None => forall e, fm_get (a_id a) (ms_args m) = Some e -> m_source e = Some SEnv \/ m_source e = Some SDefault
+  end.
+Proof.
+  intros c TC HP Hin SF.
+  pose proof (top_valid c0 bin toks os m TC HP) as HA. fold c in HA.
+  pose proof (gen_top_override_graph c0 bin toks os m a TC HP Hin) as HD. fold c in HD.
+  destruct TC as [_ [_ [_ HSc]]]. fold c in HSc.
+  destruct (last_own (a_id a) (live c (a_id a) os)) as [o|] eqn:EL.
+  - destruct (last_own_split _ _ _ EL) as [l1 [l2 [E1 [E2 E3]]]].
+    assert (Ho : In o (live c (a_id a) os)) by (rewrite E1; apply in_or_app; right; left; reflexivity).
+    assert (So : wscanned c o) by (rewrite Forall_forall in HSc; exact (HSc o (live_incl c _ os o Ho))).
+    pose proof (scanned_same c a o HA Hin So E2) as Eo.
+    assert (HU : Forall (unrelated c (a_id a)) l2).
+    { apply Forall_forall. intros o' Ho'. rewrite Forall_forall in E3.
+      apply not_overrider_unrelated; [|exact (E3 o' Ho')].
+      destruct (overrider c (a_id a) o') eqn:Eo'; [|reflexivity].
+      assert (X : existsb (overrider c (a_id a)) (live c (a_id a) os) = true).
+      { apply existsb_exists. exists o'. split; [|exact Eo']. rewrite E1. apply in_or_app. right. right. exact Ho'. }
+      rewrite (live_no_overrider c (a_id a) os) in X. discriminate. }
+    rewrite E1 in HD. rewrite (abs_last_wins c a l1 o l2 None SF Eo HU) in HD.
+    destruct So as [_ [Es _]]. rewrite Es in HD. exact HD.
+  - rewrite (fold_absent c (a_id a) _ (last_own_none _ _ EL)) in HD. exact HD.
+Qed.
+
 (** * The same for the two scanned classes *)
 Theorem top_override_graph c0 bin toks os m a :
   let c := build_self (with_bin c0 bin) in
@@ -213,6 +273,17 @@ Theorem wide_append_graph c0 bin toks os m a :
   (count_occ (a_id a) lv = 0%nat ->
      forall e, fm_get (a_id a) (ms_args m) = Some e -> m_source e = Some SEnv \/ m_source e = Some SDefault).
 Proof. intros c TC. exact (gen_top_append_graph c0 bin toks os m a (wide_gen _ _ _ _ TC)). Qed.
+
+Theorem wide_set_graph c0 bin toks os m a :
+  let c := build_self (with_bin c0 bin) in
+  wide_class c0 bin toks os -> parse_top c0 (bin :: toks) = OOk m -> In a (c_args c) ->
+  set_family a = true ->
+  match last_own (a_id a) (live c (a_id a) os) with
+  | Some o => exists e, fm_get (a_id a) (ms_args m) = Some e /\
+                m_raw e = step_self c SCmdLine a (o_vals c o) None /\ m_source e = Some SCmdLine
+  | None => forall e, fm_get (a_id a) (ms_args m) = Some e -> m_source e = Some SEnv \/ m_source e = Some SDefault
+  end.
+Proof. intros c TC. exact (gen_top_set_graph c0 bin toks os m a (wide_gen _ _ _ _ TC)). Qed.
 
 (** * Non-vacuity: FOUR arguments in override relations with [-t] *)
 Module GraphExamples.
@@ -267,6 +338,29 @@ Module GraphExamples.
     destruct (H ltac:(vm_compute; lia)) as [e [Ge [Re Se]]].
     unfold entry. assert (E : a_id (argB [111]) = [111]) by vmr. rewrite E in Ge. rewrite Ge. cbn [option_map].
     rewrite Re, Se. vmr.
+  Qed.
+  (** Set-like in the graph: on lineH, -b (SetTrue) is followed by -o 3 (related: b overrides o), so b holds only its default;
+      on the line -b -o 1 -t -b the last -b is live *)
+  Definition lineS : list bytes := [[45;98]; [45;111]; [49]; [45;116]; [45;98]].
+  Example classS : wide_class c1 bin lineS (occs lineS).
+  Proof. unfold wide_class. split; [|split; [|split]]; vmr. Qed.
+  Example okS : parse_top c1 (bin :: lineS) = OOk (result lineS).
+  Proof. vmr. Qed.
+  Example set_b : entry lineS [98] = Some (Some SCmdLine, [[s_true]]) /\
+    forall e, fm_get [98] (ms_args (result lineH)) = Some e -> m_source e = Some SEnv \/ m_source e = Some SDefault.
+  Proof.
+    assert (Hin : In (argB [98]) (c_args cb)) by in_args.
+    assert (E : a_id (argB [98]) = [98]) by vmr.
+    split.
+    - pose proof (wide_set_graph c1 bin lineS (occs lineS) (result lineS) (argB [98]) classS okS Hin ltac:(vmr)) as H.
+      cbv zeta in H. fold cb in H.
+      assert (EL : last_own (a_id (argB [98])) (live cb (a_id (argB [98])) (occs lineS)) = Some (nth 3 (occs lineS) (tok_occ IShort (arg_new []) []))) by vmr.
+      rewrite EL in H. destruct H as [e [Ge [Re Se]]].
+      unfold entry. rewrite E in Ge. rewrite Ge. cbn [option_map]. rewrite Re, Se. vmr.
+    - pose proof (wide_set_graph c1 bin lineH (occs lineH) (result lineH) (argB [98]) classH okH Hin ltac:(vmr)) as H.
+      cbv zeta in H. fold cb in H.
+      assert (EL : last_own (a_id (argB [98])) (live cb (a_id (argB [98])) (occs lineH)) = None) by vmr.
+      rewrite EL in H. rewrite E in H. exact H.
   Qed.
   (** every one of the FOUR earlier arguments related to t is gone (only defaults are left) *)
   Example overriders_gone : forall i, In i [[97]; [98]; [122]; [111]] ->
